@@ -155,6 +155,9 @@ func drawHeaderLines(t *rapid.T) string {
 			v = rapid.SampledFrom(rangeVals).Draw(t, "range")
 		case 1:
 			v = rapid.SampledFrom(ccVals).Draw(t, "cc")
+			if rapid.Bool().Draw(t, "cc-grammar") {
+				v = drawCC(t)
+			}
 		case 2:
 			v = rapid.SampledFrom(dateVals).Draw(t, "date")
 		default:
@@ -222,6 +225,58 @@ func drawUnit(t *rapid.T) Unit {
 		u.Input = rapid.SampledFrom([]string{"a:1", "a", ":", "[::1]:1", "[::1", "::1:1", "a:b:c", "", "\x00:1", "a:99999", "[fe80::1%eth0]:1", " a:1", strings.Repeat("a", 300) + ":1", strings.Repeat("a.", 200) + "b:1"}).Draw(t, "host")
 	}
 	return u
+}
+
+// The Cache-Control grammar is small: every directive name x every argument shape, alone and in pairs,
+// is enumerated (on request and response side) instead of being left to chance.
+var ccNames = []string{"max-age", "s-maxage", "no-cache", "no-store", "private", "stale-while-revalidate", "MAX-AGE", "x"}
+var ccArgs = []string{"", "=", "=5", "=\"5\"", "=\"", "=\"\"", "=\"5", "=5\"", "=-1", "=05", "= 5", "=\"1,2\"", "=1e3", "=99999999999999999999", "='5'", "=\"\\\"\"", "==", "=\" \""}
+var ccSeps = []string{",", ", ", " , ", ",,"}
+
+func TestCacheControlGrammar(t *testing.T) {
+	subUnit.Enumerate(t, true, func(yield func(Unit) bool) {
+		idx := 0
+		emit := func(v string) bool {
+			idx++
+			if idx%ev.NShards != ev.Shard {
+				return true
+			}
+			return yield(Unit{Target: "request-headers", Input: "GET http://h.test/p HTTP/1.1\r\nHost: h.test\r\nCache-Control: " + v + "\r\n\r\n"}) &&
+				yield(Unit{Target: "response-headers", Input: "HTTP/1.1 200 OK\r\nCache-Control: " + v + "\r\nContent-Length: 0\r\n\r\n"})
+		}
+		var singles []string
+		for _, n := range ccNames {
+			for _, a := range ccArgs {
+				singles = append(singles, n+a)
+			}
+		}
+		for _, d := range singles {
+			if !emit(d) || !emit(" "+d+" ") {
+				return
+			}
+		}
+		seps := ccSeps[:1]
+		if ev.Thorough() {
+			seps = ccSeps
+		}
+		for _, a := range singles {
+			for _, b := range singles {
+				for _, sp := range seps {
+					if !emit(a + sp + b) {
+						return
+					}
+				}
+			}
+		}
+	})
+}
+
+func drawCC(t *rapid.T) string {
+	var parts []string
+	for i := rapid.IntRange(1, 4).Draw(t, "ndir"); i > 0; i-- {
+		parts = append(parts, rapid.SampledFrom(ccNames).Draw(t, "cc-name")+rapid.SampledFrom(ccArgs).Draw(t, "cc-arg"))
+	}
+	return strings.Join(parts, rapid.SampledFrom(ccSeps).Draw(t, "cc-sep"))
 }
 
 func TestParsers(t *testing.T) {
